@@ -20,6 +20,11 @@ pub fn check_grammar(p: &Prepared, _known: &Known, stats: &mut Stats, max_calls:
                 stats.inc("excluded.model-diverges-or-capped");
                 continue;
             }
+          for detail in [false, true] {
+            // the whole sweep once more with detailed error tracking on (its bookkeeping runs inside
+            // the same combinators that count calls)
+            pest::set_error_detail(detail);
+            let _reset = ResetDetail;
             pest::set_call_limit(None);
             let r_inf = run_vm(&p.vm, start, input);
             if matches!(r_inf, Real::Panic(_)) {
@@ -36,7 +41,7 @@ pub fn check_grammar(p: &Prepared, _known: &Known, stats: &mut Stats, max_calls:
                 return;
             };
             if r_big != r_inf {
-                stats.violation_class("huge-limit-differs", json!({"kind": "result-under-unreachable-limit-differs", "grammar": p.text, "rule": start, "input": input, "unlimited": real_json(&r_inf), "limited": real_json(&r_big), "limit": usize::MAX / 2, "features": feat()}));
+                stats.violation_class("huge-limit-differs", json!({"kind": "result-under-unreachable-limit-differs", "grammar": p.text, "rule": start, "input": input, "unlimited": real_json(&r_inf), "limited": real_json(&r_big), "limit": usize::MAX / 2, "error_detail": detail, "features": feat()}));
                 continue;
             }
             if c > max_calls {
@@ -64,7 +69,7 @@ pub fn check_grammar(p: &Prepared, _known: &Known, stats: &mut Stats, max_calls:
                 }
                 if !same && !clr {
                     stats.violation_class("silent-change", json!({"kind": "limit-changes-result-silently", "grammar": p.text, "rule": start, "input": input, "limit": l, "calls_needed": c,
-                        "unlimited": real_json(&r_inf), "limited": real_json(&r), "features": feat()}));
+                        "unlimited": real_json(&r_inf), "limited": real_json(&r), "error_detail": detail, "features": feat()}));
                     break;
                 }
                 if same && completed_at.is_none() {
@@ -72,7 +77,7 @@ pub fn check_grammar(p: &Prepared, _known: &Known, stats: &mut Stats, max_calls:
                 }
                 if !same {
                     if let Some(l0) = completed_at {
-                        stats.violation_class("not-monotone", json!({"kind": "completes-under-smaller-limit-but-not-larger", "grammar": p.text, "rule": start, "input": input, "completes_at": l0, "fails_at": l, "calls_needed": c, "features": feat()}));
+                        stats.violation_class("not-monotone", json!({"kind": "completes-under-smaller-limit-but-not-larger", "grammar": p.text, "rule": start, "input": input, "completes_at": l0, "fails_at": l, "calls_needed": c, "error_detail": detail, "features": feat()}));
                         break;
                     }
                 }
@@ -80,12 +85,20 @@ pub fn check_grammar(p: &Prepared, _known: &Known, stats: &mut Stats, max_calls:
                     stats.inc("observed.limit-beyond-need-still-refuses");
                 }
             }
-            stats.outcome(&format!("calls{}:{}", c.min(12), outcomes));
+            stats.outcome(&format!("calls{}:{}{}", c.min(12), outcomes, if detail { ":detail" } else { "" }));
             if !sampled && (stats.samples.len() < 2 || stats.get("grammars_accepted") % 2000 == 0) {
                 sampled = true;
                 stats.sample(|| json!({"grammar": p.text, "rule": start, "input": input, "calls_needed": c, "limits_swept": format!("1..={}", c + 1), "unlimited": real_json(&r_inf), "first_limit_that_completes": completed_at}));
             }
+          }
         }
+    }
+}
+
+struct ResetDetail;
+impl Drop for ResetDetail {
+    fn drop(&mut self) {
+        pest::set_error_detail(false);
     }
 }
 
